@@ -81,6 +81,10 @@ void buildCase(const JV& c, size_t k, std::string& out) {
 	size_t nv = many ? 210 : 12;
 	std::vector<Triangle> tris;
 	for (size_t i = 0; i + 2 < nv; i++) tris.emplace_back(uint16_t(i), uint16_t(i + 1), uint16_t(i + 2));
+	const std::string oddEarly = c.has("odd") ? c["odd"].s : std::string();
+	// two-sided: every triangle also with the opposite winding (cloth, hair cards)
+	if (oddEarly == "twoSided")
+		for (size_t i = 0, n0 = tris.size(); i < n0; i++) tris.emplace_back(tris[i].p1, tris[i].p3, tris[i].p2);
 	std::vector<std::string> names = {"S", "S2"}; // (the by-name skinning API needs distinct names; a duplicate is made afterwards)
 	for (size_t si = 0; si < 2; si++) {
 		NiShape* shape = buildShape(gen, names[si], nv, tris, true);
@@ -155,6 +159,39 @@ void buildCase(const JV& c, size_t k, std::string& out) {
 		inst->DataRef()->index = first->DataRef()->index;
 		nif.GetHeader().DeleteBlock(own);
 		nif.LinkGeomData();
+		NifFile re;
+		if (loadFromString(re, saveToString(nif, false, false)) != 0) return;
+		nif.CopyFrom(re);
+	}
+	else if (odd == "slotWeights") {
+		// Skyrim SE: the skin data block carries no vertex weights (they live in the vertex records only), and a vertex
+		// keeps the weight of a bone in a slot of its own, so that empty slots come before used ones
+		auto& hd = nif.GetHeader();
+		for (auto sh : nif.GetShapes()) {
+			auto bs = dynamic_cast<BSTriShape*>(sh);
+			auto si = hd.GetBlock<NiSkinInstance>(sh->SkinInstanceRef());
+			auto sd = si ? hd.GetBlock(si->dataRef) : nullptr;
+			if (!bs || !sd) continue;
+			sd->hasVertWeights = 0;
+			for (auto& b : sd->bones) {
+				b.vertexWeights.clear();
+				b.numVertices = 0;
+			}
+			for (auto& vd : bs->vertData) {
+				float w[4] = {vd.weights[0], vd.weights[1], vd.weights[2], vd.weights[3]};
+				uint8_t bn[4] = {vd.weightBones[0], vd.weightBones[1], vd.weightBones[2], vd.weightBones[3]};
+				for (int q = 0; q < 4; q++) {
+					vd.weights[q] = 0.0f;
+					vd.weightBones[q] = 0;
+				}
+				// slot = bone number modulo four (the models here use at most two neighbouring bones per vertex)
+				for (int q = 0; q < 4; q++)
+					if (w[q] != 0.0f) {
+						vd.weights[bn[q] % 4] = w[q];
+						vd.weightBones[bn[q] % 4] = bn[q];
+					}
+			}
+		}
 		NifFile re;
 		if (loadFromString(re, saveToString(nif, false, false)) != 0) return;
 		nif.CopyFrom(re);
